@@ -9,6 +9,7 @@
 package logic
 
 import (
+	"net"
 	"sync"
 	"time"
 )
@@ -18,7 +19,17 @@ type IpBlacklist struct {
 	ips map[string]int64 // TODO(chef): 优化性能 202405
 }
 
+// canonicalIp 同一个地址的不同写法（比如`0:0:0:0:0:0:0:1`和`::1`，`::ffff:10.1.2.3`和`10.1.2.3`）归一成同一个key
+func canonicalIp(ip string) string {
+	if p := net.ParseIP(ip); p != nil {
+		return p.String()
+	}
+	return ip
+}
+
 func (l *IpBlacklist) Add(ip string, durationSec int) {
+	ip = canonicalIp(ip)
+
 	l.mu.Lock()
 	defer l.mu.Unlock()
 
@@ -31,6 +42,8 @@ func (l *IpBlacklist) Add(ip string, durationSec int) {
 }
 
 func (l *IpBlacklist) Has(ip string) bool {
+	ip = canonicalIp(ip)
+
 	l.mu.Lock()
 	defer l.mu.Unlock()
 
